@@ -189,7 +189,7 @@ META["C09"] = {
             "escaped reference; distinct = distinct op lists among those",
     "exhaustive_dimensions": [],
     "sampled_dimensions": ["operation schedules", "failure cause x loader x flag set", "documents and values", "actor assignment"],
-    "expected_probes": ["read_on_other_thread", "dropped_on_other_thread", "drop_probe_saw_intact_data", "escaped_static_ref.deref-copy", "escaped_static_ref.asref-copy"],
+    "expected_probes": ["read_on_other_thread", "dropped_on_other_thread", "drop_probe_saw_intact_data", "escaped_static_ref.deref-copy", "escaped_static_ref.asref-copy", "escaped_static_ref.field-copy"],
     "real": WORLD_REAL,
     "stub": WORLD_STUB,
     "assumptions": DOC_ASSUMPTIONS[:1] + [
@@ -208,5 +208,5 @@ META["C09"]["probes"] = [
      "error_pattern": r"E0515|E0597|E0505|does not live long enough|borrowed value",
      "bins": [("control", "compiles"), ("outlive_return", "fails"), ("outlive_scope", "fails"), ("outlive_field", "fails"), ("outlive_drop", "fails")]},
     {"name": "escape_static", "class": "C09/escape-observation", "expect": "observe",
-     "bins": [("escape_deref", "observe"), ("escape_asref", "observe")]},
+     "bins": [("escape_deref", "observe"), ("escape_asref", "observe"), ("escape_field", "observe")]},
 ]
